@@ -147,6 +147,8 @@ def call_cases(draw):
         "seed": draw(st.integers(0, 2**31)),
         "int_masses": draw(st.booleans()),
         "ase_integ": draw(st.sampled_from(["velocityverlet", "langevin", "langevin-fixcm"])),
+        # the phase point may carry a kinetic energy from the MD program's own log (other units, other precision)
+        "stored_ekin": draw(st.sampled_from([None, None, 7777.25])),
     }
 
 
@@ -161,8 +163,11 @@ def body_call(rec, c):
         src_bytes = open(src, "rb").read()
         before = reader(src)
         system = ek.system_for(src, 0)
+        if c.get("stored_ekin") is not None and engine != "gromacs":
+            system.ekin = c["stored_ekin"]
         sys_before = (system.config, system.vel_rev, list(system.order))
         gstate = np.random.get_state()[1][:8].tolist()
+        vs_before = dict(vs)
         try:
             dek, kin_new = eng.modify_velocities(system, vs)
         except Exception as exc:  # noqa: BLE001
@@ -175,6 +180,8 @@ def body_call(rec, c):
                  sample={"engine": engine, "n": c["n"], "T": T, "zero_momentum": c["zero_momentum"], "kin_new": float(kin_new), "dek": float(dek) if math.isfinite(dek) else str(dek)}
                  if len(rec.samples) < 3 and multi else None)
         info = f"case={c}"
+        # the settings it was given are the caller's (one dict is shared by all ensembles and engines of a run): not written to
+        rec.check(vs == vs_before, f"{engine}:velocity-settings-dict-modified", f"{vs_before} -> {vs}")
         # the frame it was taken from is not altered
         rec.check(open(src, "rb").read() == src_bytes, f"{engine}:source-frame-file-modified", info)
         rec.check(system.config[0] != src, f"{engine}:velocities-written-into-the-source-frame", info)
